@@ -82,6 +82,7 @@ func init() {
 				p.PBlock = 0.35
 				p.PClose = 0.12
 				p.BlockOps = []string{"close", "close", "newjoin", "newjoin", "joiner", "switch"}
+				p.PEndgame = 0.4
 				sc := GenHistory(seed, p)
 				sc.Prop = "C03"
 				return sc
